@@ -21,7 +21,9 @@ ok=0
 if [ "$NOBL" != "--no-baseline" ]; then
   # only test files whose import closure contains a touched module can change their outcome
   export BL_ONLY="$("$(dirname "$0")/affected_tests.py" "$W" "$D/patch.diff")"
-  "$(dirname "$0")/baseline_sharded.sh" "$W" | head -8; bl=${PIPESTATUS[0]}
+  BLOUT=$(mktemp /tmp/vsb_XXXXXX)
+  "$(dirname "$0")/baseline_sharded.sh" "$W" > "$BLOUT" 2>&1; bl=$?
+  head -8 "$BLOUT"; grep MISSING "$BLOUT"; rm -f "$BLOUT"
   [ "$bl" = 0 ] || ok=1
 fi
 echo "verify_seed $(basename "$D"): $([ $ok = 0 ] && echo CONFIRMED || echo REJECTED)"
